@@ -3,10 +3,10 @@
 import json, subprocess
 CHECKS = {
  # id: (level category, technique, level text, level note)
- "C01": ("model_checking", "deviation-bounded exhaustive DFS (E1) over structure generators + complete menu of structure-aware byte operators + exhaustive short-string walk (E3); every execution runs the real parser and serialiser",
+ "C01": ("model_checking", "deviation-bounded exhaustive DFS (E1) over structure generators + complete menu of structure-aware byte operators + exhaustive short-string walk (E3); explicit-state exploration of HISTORIES of parse operations on live values (E4: all ordered pairs / triples of items, final buffer-recycle step), invariant 'every live value serialises to the bytes it consumed' after every step; every execution runs the real parser and serialiser",
          "All encodings within 2 (thorough 3) deviations of a valid structure, each expanded by every single structure-aware mutation, and all strings over reduced alphabets up to length 6-7 for the small parsers, are parsed by the real code; for every accepted input the serialisation is compared with the consumed bytes. Exhaustive inside the stated bounds.",
          "Small-scope hypothesis: a defect needing more simultaneous deviations than the bound, or byte values outside the menus, is not seen. Acceptance rule for error-list parsers as stated in DESIGN.md."),
- "C02": ("model_checking", "deviation-bounded exhaustive DFS (E1) over legal model values of an independent reference model; every model trace is replayed against the implementation in both directions (model bytes -> real parser -> accessors; real constructors -> bytes -> reference decoder)",
+ "C02": ("model_checking", "deviation-bounded exhaustive DFS (E1) over legal model values of an independent reference model; every model trace is replayed against the implementation in both directions (model bytes -> real parser -> accessors; real constructors -> bytes -> reference decoder); plus result-independence histories (H1/H2, E4 depth 4) over every exported accessor of parsed values, with the caller overwriting the results it was handed",
          "Every model value within 2 (thorough 3) legal variations of the default of every structure is emitted by the independent model and validated against the real parser, and pushed through the real constructors and validated by the independent strict decoder. A consistent read/write-side change (swapped fields, moved key, dropped prefix) is caught because the reference shares no code with the library.",
          "Trusts refmodel (written from the 0.9.67 layouts; MetaLeaseSet per the repository's documented layout). Known findings: LEASESET2_MIN_SIZE / META_LEASESET_MIN_SIZE."),
  "C03": ("model_checking", "same exhaustive input space as C01 with truncation at every offset and appended-byte menus; oracles: suffix remainder, reference-decoder extent, append invariance, no accepted proper prefix",
@@ -20,29 +20,29 @@ CHECKS = {
          "Known findings record constructor/validator drifts pinned by the repository's own tests (NewOfflineSignature expires=0, NewKeysAndCert nil keys, NewRouterInfo)."),
  "C15": ("exploration", "exhaustive sweep: 8 published values x all 65,536 offsets x 3 structures, boundary sets for every other time field, exhaustive small lease-date tuples and permutations; oracle math/big on raw fields",
          "The 16-bit offset axis is covered completely for every boundary published value; lease-set extremum over all tuples of 1..6 dates from a 3-value menu, all permutations of 4 dates and every extremum position among 16.",
-         "IsExpired checked at +-1 day only (time-dependent)."),
+         "IsExpired is judged on every swept value with a one-day margin around the wall clock (exact expiry <= now-1d => expired, >= now+1d => not), with and without OFFLINE_KEYS."),
  "C16": ("model_checking", "E1 over LeaseSet2 values x key pairs x cookies under a deterministic rand.Reader; exhaustive tampering of every ciphertext byte; exhaustive product for blinding (types x secrets x instants x zones x factors) against an independent edwards25519 computation",
          "Every byte position of the selected ciphertexts is modified (8 bit flips; thorough: all 255 values) and must be rejected with a nil value; every (destination type, secret, instant, zone) tuple is blinded and compared with A + alpha*B computed independently.",
          "alpha derivation (HKDF) is trusted from go-i2p/crypto; AEAD/X25519 primitives trusted."),
- "C17": ("exploration", "exhaustive product of host x port x key-variant x caps menus through constructor and parser paths, against independent three-valued IP/port recognisers",
+ "C17": ("exploration", "exhaustive product of host x port x key-variant x caps menus through constructor and parser paths, against independent three-valued IP/port recognisers; per entry a call history (result kept / caller overwrites its result / fresh lookup)",
          "Full product of a 50-host and 34-port menu plus key variants and caps; every static-key/IV length 0..40.",
          "Strings outside the menus are not enumerated; Unspecified forms only bound by the consistency clauses."),
  "C18": ("model_checking", "stateless preemption-bounded exhaustive exploration of thread interleavings of the REAL code under a hand-written cooperative scheduler (statement-level yield points inserted into every library file by an AST instrumenter applied as a go build -overlay), with deep snapshots of receiver graph + all package-level variables; plus a per-statement mutation analysis and a separate free-running -race pass",
          "For every structure type, every unordered pair of read-only operations on one shared value is run under every schedule with at most 1 preemption (2 where an operation was seen writing; thorough: 2 everywhere + triples); each schedule must reproduce the solo results and leave the shared snapshot unchanged. Step 1 hashes the shared snapshot at every statement of each operation, so even a transient write-and-restore is a violation. The race detector pass catches same-value writes the value oracle cannot see.",
          "Statement-level atomicity, sequential consistency; go-i2p/crypto and logrus internals are atomic; the -race pass is sampling (secondary guard). No hook is committed to /repo: the instrumentation is regenerated from the working tree at every run."),
- "C19": ("model_checking", "differential exhaustive exploration: every pair of equivalent entry points run on the whole bounded input space (E1 + operators + byte-walk) and on the full product of constructor argument menus; builder call sequences enumerated",
+ "C19": ("model_checking", "differential exhaustive exploration: every pair of equivalent entry points run on the whole bounded input space (E1 + operators + byte-walk) and on the full product of constructor argument menus; builder call sequences enumerated; all signature constructors swept over every type code -2..65537",
          "For each of 27 parser pairs and 6 constructor pairs, both entry points are executed on every input in the bounded space that lies in the pair's stated domain and must agree on acceptance, serialisation and remainder.",
          "Domains: declared key types for type-specific readers, permitted types for wrappers; builder compared on codes <= 65535."),
  "C20": ("model_checking", "exhaustive reflection over every exported type x zero receivers x argument-free methods, plus explicit-state exploration of partial values: every (base, cut point, parser) triple's returned-with-error value x every argument-free method",
          "The type list is regenerated from /repo's AST at every run, so new types/methods are included automatically; partial values are produced by truncating every base at every field boundary (thorough: every offset).",
          "nil pointers returned with an error are not called through; mutating methods excluded."),
- "C05": ("model_checking", "E1 over signed model structures x exhaustive adversarial derivations (forgery constructions, full structure-aware operator menu, a bit flip in every byte); every trace is executed by the real parser+verifier and judged by an independent verifier over the received bytes",
+ "C05": ("model_checking", "E1 over signed model structures x exhaustive adversarial derivations (forgery constructions, full structure-aware operator menu, a bit flip in every byte; buffer-reuse history for the structures C08 lists); every trace is executed by the real parser+verifier and judged by an independent verifier over the received bytes",
          "For every signed base within the deviation bound, every derivation in the menu is produced and run through the library; whenever the library reports success the independent VerifyRaw must agree. Positive controls are counted (vacuity is visible).",
          "Assumes unforgeability of the primitives: decides the verification logic (which key, which bytes, which prefix, authorisation of transient keys), not cryptanalysis."),
  "C06": ("model_checking", "E1 over constructor argument tuples (model values within the deviation bound, all private-key representations, all insertion orders of option sets) driven through the real signing constructors; four-step oracle incl. an independent verifier",
          "Every value the signing constructors build in the bounded argument space must verify, survive Bytes()+parse with empty remainder, verify again, and be accepted by the independent verifier.",
          "Known findings: ECDSA keys cannot be verified by go-i2p/crypto (third party); LEASESET2_MIN_SIZE."),
- "C07": ("model_checking", "E1 over the identity generator x every API path x every single-byte variant (all positions), against SHA-256 / independent base32+base64 codecs",
+ "C07": ("model_checking", "E1 over the identity generator x every API path x every single-byte variant (all positions), constructor-only identities (P-521, field-assembled), and explicit-state exploration of all call sequences (<= 3, thorough 5) over the hashing entry points incl. failing readers, against SHA-256 / independent base32+base64 codecs",
          "Every identity within the deviation bound through 8 API paths; for each, every byte position is modified (two values) and hash/address/equality re-evaluated. Exhaustive over positions and paths for the enumerated identities.",
          "SHA-256 from the standard library; base codecs from refmodel."),
  "C08": ("model_checking", "E1 over accepted encodings x overwrite histories on live parsed values (whole buffer, each region, each copy-documented accessor result), judged by a deep reflect+unsafe snapshot of the value graph",
@@ -57,10 +57,10 @@ CHECKS = {
  "C11": ("exploration", "exhaustive enumeration of all small Go maps over a string menu, every insertion order, the size-limit family and a byte-walk, against an independent reference encoder",
          "Every map with <= 3 entries over a 12-string menu, every insertion order of the pair list (n <= 5), payload sizes 65,520..65,550 and string lengths 254/255/256; exhaustive inside those domains.",
          "Go map iteration order cannot be steered (repeats are a secondary guard); strings outside the menu are not enumerated."),
- "C12": ("exploration", "exhaustive/boundary enumeration of (value,width), dates and string lengths against a math/big reference",
+ "C12": ("exploration", "exhaustive/boundary enumeration of (value,width), dates and string lengths against a math/big reference; explicit-state exploration of all call sequences (<= 3, thorough 4) over 56 primitive operations with earlier results re-compared after every step",
          "Widths 1-2 exhaustive, widths 3-8 boundary sets, every size -2..10, all 65,536 uint16/int16, every string length 0..300 and every (declared,actual) reader pair.",
          "Go int is 64-bit; random interior values of wide integers are not enumerated (boundary sets only)."),
- "C13": ("exploration", "exhaustive enumeration of short byte strings / short texts against a bit-level reference codec",
+ "C13": ("exploration", "exhaustive enumeration of short byte strings / short texts against a bit-level reference codec; explicit-state exploration of all call sequences (<= 3) over 46 codec operations incl. 'caller overwrites its results'",
          "All byte strings up to length 2 (3 in thorough), all texts up to length 2 over 256 symbols, substitution of every byte value at every position of valid blocks, all texts up to length 8 over reduced alphabets, and the documented size limits +-1.",
          "Reference codec refmodel/base.go; lenient forms (non-zero trailing bits etc.) only constrained on value."),
 }
